@@ -17,11 +17,13 @@ mcvars == <<vars, ctr, view, hist>>
 A == <<65>>  B == <<66, 98>>
 Addrs == {"10.1.1.1", "10.1.1.12", "10.2.2.2"}   \* one address is a textual prefix of another
 
-Accounts == [g \in {"guest", "adm", "mute", "mod"} |->
+(* "brk": an account whose stored password hash is unusable (empty / plain text / truncated): no password matches it *)
+Accounts == [g \in {"guest", "adm", "mute", "mod", "brk"} |->
    CASE g = "guest" -> [pw |-> <<>>,  name |-> <<103>>, acc |-> {9, 10, 11, 26, 40}]
      [] g = "adm"   -> [pw |-> <<1>>, name |-> <<97>>,  acc |-> {9, 10, 11, 17, 22, 24, 26, 32, 40}]
      [] g = "mute"  -> [pw |-> <<2>>, name |-> <<109>>, acc |-> {23}]
-     [] g = "mod"   -> [pw |-> <<3>>, name |-> <<111>>, acc |-> {10, 11, 22, 26, 40}]]   \* may disconnect (shown as admin) but may not read chat
+     [] g = "mod"   -> [pw |-> <<3>>, name |-> <<111>>, acc |-> {10, 11, 22, 26, 40}]
+     [] g = "brk"   -> [pw |-> <<255, 254>>, name |-> <<98>>, acc |-> {9, 10, 17, 22}]]   \* may disconnect (shown as admin) but may not read chat
 
 Init == /\ InitWith(Accounts, <<72, 105>>)
         /\ ctr = 0
@@ -39,8 +41,8 @@ LowestFree == CHOOSE c \in Conns : conn[c].ph = "free" /\ \A d \in Conns : conn[
 AnyFree == \E c \in Conns : conn[c].ph = "free"
 Chats == DOMAIN chats
 
-LoginVariants == IF Thin THEN {<<"", <<>>>>, <<"adm", <<1>>>>, <<"mute", <<2>>>>, <<"mod", <<3>>>>, <<"adm", <<2>>>>, <<"nobody", <<>>>>, <<"", <<5>>>>}
-                 ELSE {"", "adm", "mute", "mod", "nobody"} \X {<<>>, <<1>>, <<2>>, <<3>>, <<5>>}
+LoginVariants == IF Thin THEN {<<"", <<>>>>, <<"adm", <<1>>>>, <<"mute", <<2>>>>, <<"mod", <<3>>>>, <<"adm", <<2>>>>, <<"nobody", <<>>>>, <<"", <<5>>>>, <<"brk", <<>>>>, <<"brk", <<1>>>>}
+                 ELSE {"", "adm", "mute", "mod", "nobody", "brk"} \X {<<>>, <<1>>, <<2>>, <<3>>, <<5>>}
 
 StepsOf(c) ==
   IF conn[c].ph = "open" THEN
@@ -136,5 +138,5 @@ NoPostLeaveDelivery ==
         => out'[i].to \in chats'[out'[i].chat].members \/ out'[i].to \in chats[out'[i].chat].members]_mcvars
 
 (* script emission: simulation prints the walk when it reaches GenDepth *)
-Emit == (Len(hist') = GenDepth) => PrintT("B " \o ToJson([world |-> [accts |-> Accounts, agreement |-> agreement], steps |-> hist']))
+Emit == (Len(hist') = GenDepth) => PrintT("B " \o ToJson([world |-> [accts |-> Accounts, agreement |-> agreement, broken |-> {"brk"}], steps |-> hist']))
 =============================================================================
